@@ -92,10 +92,48 @@ def _is_aclose_await(ctx, unit: Unit, n: Node, src: Optional[str]) -> bool:
     return _names_aclose(ctx, unit, operand, n)
 
 
+def _aclose_receiver(ctx, unit: Unit, e: Optional[ast.AST], n: Node, depth: int = 0) -> Optional[ast.AST]:
+    """X for ``X.aclose()`` / ``getattr(X, "aclose", d)()`` / a local bound to either."""
+    if e is None or depth > 4:
+        return None
+    if isinstance(e, ast.Call):
+        if isinstance(e.func, ast.Name) and e.func.id == "getattr" and len(e.args) >= 2 \
+                and isinstance(e.args[1], ast.Constant) and e.args[1].value == "aclose":
+            return e.args[0]
+        return _aclose_receiver(ctx, unit, e.func, n, depth + 1)
+    if isinstance(e, ast.Attribute) and e.attr == "aclose":
+        return e.value
+    if isinstance(e, ast.Name):
+        from .common import name_value
+        v = name_value(ctx, unit, cfg_of(unit), n, e.id)
+        return _aclose_receiver(ctx, unit, v, n, depth + 1) if v is not None else None
+    return None
+
+
+def _closes_owner_generator(ctx, unit: Unit, n: Node, src: str) -> bool:
+    """K3': ``await g.aclose()`` where ``g`` is a library async generator that was handed the
+    iterable (``g = aiter(zip(*iterable))``): the generator owns it (and is checked for its own
+    parameter), closing the generator is this function's release."""
+    if n.kind != "await" or not _names_aclose(ctx, unit, n.info.get("value"), n):
+        return False
+    recv = _aclose_receiver(ctx, unit, n.info.get("value"), n)
+    if not isinstance(recv, ast.Name):
+        return False
+    v = ctx.vals.expr(unit, recv, n)
+    if not v or not all(a[0] in ("libgen", "scoped") for a in v):
+        return False
+    from asl.flow import reaching
+    defs = reaching(cfg_of(unit)).defs_at(n, recv.id)
+    vals = [d.info.get("value") for d in defs if d.kind == "store"]
+    return bool(vals) and len(vals) == len(defs) and all(_expr_mentions(ctx, unit, val, d, src) for val, d in zip(vals, defs))
+
+
 def _names_aclose(ctx, unit: Unit, e: Optional[ast.AST], n: Node, depth: int = 0) -> bool:
     if e is None or depth > 4:
         return False
     if isinstance(e, ast.Call):
+        if isinstance(e.func, ast.Name) and e.func.id == "getattr" and len(e.args) >= 2:
+            return isinstance(e.args[1], ast.Constant) and e.args[1].value == "aclose"
         return _names_aclose(ctx, unit, e.func, n, depth + 1)
     if isinstance(e, ast.Attribute):
         return e.attr == "aclose"
@@ -107,6 +145,34 @@ def _names_aclose(ctx, unit: Unit, e: Optional[ast.AST], n: Node, depth: int = 0
         vals = [d.info.get("value") for d in defs if d.kind == "store"]
         return bool(vals) and all(_names_aclose(ctx, unit, v, n, depth + 1) for v in vals)
     return False
+
+
+def no_aclose_edge(ctx, unit: Unit, n: Node) -> str:
+    """The label of the edge of branch ``n`` on which the tested object is known to have no
+    ``aclose`` ('' if the branch is no such test): ``hasattr(x, "aclose")`` false, or an
+    identity test of ``getattr(x, "aclose", <default>)`` against that very default."""
+    e = n.ast
+    neg = False
+    while isinstance(e, ast.UnaryOp) and isinstance(e.op, ast.Not):
+        e, neg = e.operand, not neg
+    # the CFG puts the branch on the innermost test: ``not`` is folded into the edge labels
+    if isinstance(e, ast.Call) and isinstance(e.func, ast.Name) and e.func.id == "hasattr" and len(e.args) == 2 \
+            and isinstance(e.args[1], ast.Constant) and e.args[1].value == "aclose":
+        return "f"
+    if isinstance(e, ast.Compare) and len(e.ops) == 1 and isinstance(e.ops[0], (ast.Is, ast.IsNot)):
+        sides = [e.left, e.comparators[0]]
+        for a, b in (sides, sides[::-1]):
+            got = a
+            if isinstance(a, ast.Name):
+                from .common import name_value
+                got = name_value(ctx, unit, cfg_of(unit), n, a.id)
+            if isinstance(got, ast.NamedExpr):
+                got = got.value
+            if isinstance(got, ast.Call) and isinstance(got.func, ast.Name) and got.func.id == "getattr" \
+                    and len(got.args) == 3 and isinstance(got.args[1], ast.Constant) and got.args[1].value == "aclose" \
+                    and norm(got.args[2]) == norm(b):
+                return "t" if isinstance(e.ops[0], ast.Is) else "f"
+    return ""
 
 
 def _loop_closes_all(ctx, unit: Unit, cfg: CFG, siter: Node, src: str, elements_are_iterators: bool = False) -> bool:
@@ -150,6 +216,8 @@ def _loop_closes_all(ctx, unit: Unit, cfg: CFG, siter: Node, src: str, elements_
             if lab in ("e", "p"):
                 continue
             if n.kind == "branch" and lab == "f" and "ACloseable" in norm(n.ast):
+                continue
+            if n.kind == "branch" and lab == no_aclose_edge(ctx, unit, n):
                 continue
             if not s.in_region("loop", loop):
                 if s is head:
@@ -234,9 +302,11 @@ def close_nodes(ctx, unit: Unit, cfg: CFG, src: str, findings: List[Tuple[Node, 
         elif n.kind == "await":
             if _is_aclose_await(ctx, unit, n, src):
                 # direct close of a single iterator (not inside a per-element loop)
-                if not any(k == "loop" for (k, _a) in n.regions):
+                if not n.in_loop():
                     out.add(n)
             elif _is_transfer_await(ctx, unit, n, src):
+                out.add(n)
+            elif _closes_owner_generator(ctx, unit, n, src) and not n.in_loop():
                 out.add(n)
             elif _is_cleanup_helper_await(ctx, unit, cfg, n, src, findings):
                 out.add(n)
@@ -420,15 +490,21 @@ def reachable_back_normal(n: Node) -> Set[Node]:
 # --------------------------------------------------------------------------- the rule
 def check_param(ctx, rule: str, unit: Unit, pname: str, src: str,
                 kinds: Optional[Tuple[str, ...]] = None) -> None:
+    unit = ctx.inlined(unit)  # cleanup moved into a private helper is still this function's cleanup
     cfg = cfg_of(unit)
     side: List[Tuple[Node, str]] = []
     closes = close_nodes(ctx, unit, cfg, src, side)
     for n, why in side:
         ctx.fail("R04.2" if rule.startswith("R04") else rule, unit, n, why, node=n)
 
+    no_aclose = {n: no_aclose_edge(ctx, unit, n) for n in cfg.nodes if n.kind == "branch"}
+
     def falsy_param_edge(a: Node, lab: str, b: Node) -> bool:
         # leaving through "p is falsy" means there is nothing to close
         if a.kind == "branch" and isinstance(a.ast, ast.Name) and a.ast.id == pname and lab == "f":
+            return False
+        # "the iterator has no aclose" (hasattr / getattr-default identity): nothing to close
+        if a.kind == "branch" and no_aclose.get(a) and lab == no_aclose[a] and not a.in_loop():
             return False
         return True
 
@@ -454,6 +530,8 @@ def check_param(ctx, rule: str, unit: Unit, pname: str, src: str,
 
         def exc_edge(a: Node, lab: str, b: Node) -> bool:
             if lab == "e" and a not in risk_all and a.kind != "dispatch":
+                return False
+            if not falsy_param_edge(a, lab, b):
                 return False
             if b.kind in ("dispatch", "raise_exit", "reraise"):
                 return True
